@@ -6,8 +6,9 @@ TARGETS = ["Base/Corr.vo", "Base/Num.vo", "C20/Model.vo", "C20/Corr.vo", "C20/Sp
            "C20/ProofsGuard.vo", "C20/ProofsLoud.vo", "C20/ProofsOk.vo", "C20/ProofsTerm.vo", "C20/ProofsRefuted.vo",
            "C20/ModelSvd.vo", "C20/ProofsSvd.vo", "C20/ProofsView.vo", "C20/Props.vo",
            "C20/ModelRetry.vo", "C20/ProofsRetry.vo", "C20/CorrRetry.vo", "C20/PropsRetry.vo",
-           "C20/ModelRecycle.vo", "C20/CorrRecycle.vo", "C20/SpecRecycle.vo", "C20/ProofsRecycle.vo", "C20/PropsRecycle.vo"]
-PROPS = ["C20/Props.v", "C20/PropsRetry.v", "C20/PropsRecycle.v"]
+           "C20/ModelRecycle.vo", "C20/CorrRecycle.vo", "C20/SpecRecycle.vo", "C20/ProofsRecycle.vo", "C20/PropsRecycle.vo",
+           "C20/ModelNewton.vo", "C20/ProofsNewton.vo", "C20/CorrNewton.vo", "C20/PropsNewton.vo"]
+PROPS = ["C20/Props.v", "C20/PropsRetry.v", "C20/PropsRecycle.v", "C20/PropsNewton.v"]
 PROPOSED = os.path.join(vlib.ROOT, "corpus/C20/known_findings_proposed.json")
 
 PARTIAL = (
@@ -59,7 +60,25 @@ PARTIAL = (
     "matrixInverse (general) (tied by the replay only); for the cores of tridiag, bidiag, qr, svd, eigen, matinv the model decides the "
     "outcome only when every buffer has exactly the shape a fresh call allocates (otherwise `None`: the recycled-vs-fresh oracle alone "
     "judges); element VALUES are compared with a fresh-workspace call by the harness (tolerance 1e-9), not proved; inputs of the stream are "
-    "positive definite / full rank, element types f64, r64 (generic paths) and f32 (cholesky).")
+    "positive definite / full rank, element types f64, r64 (generic paths) and f32 (cholesky). "
+    "NEWTON STEP LOOP + STAGNATION TEST, GAUSS-JORDAN GUARDS (round 7, ModelNewton/PropsNewton): newton's step loop is modelled with its "
+    "exits kept apart (Vequals FIRST -> `line search failed`, then constraints, then t1 *= c) inside a model of the outer loop of "
+    "newton_root / newton_min (objective, convergence test, NaN test, direction are ORACLES). Proved for every carrier and oracle: without "
+    "constraints the step loop is one pass (nstep_unconstrained_one_pass); a step that rounds away is loud at the pass it occurs for every "
+    "constraints value and cap (newton_stall_is_loud); consecutive iterates of every run differ (newton_iterates_move); the variant with the "
+    "stagnation test on the rejection path only uses up ANY cap on a stalled unconstrained state (newton_late_stall_test_spins_refuted). NOT "
+    "proved and FALSE for the code: termination of the outer loop with the default MaxIterations = MaxInt - the stagnation test compares "
+    "consecutive iterates only; period-2 cycles between neighbouring floats (F-C20-NEWTON-CYCLE; refuted in Coq for every carrier and oracle: "
+    "newton_period2_cycle_spins_refuted, with the binary64 witness x*x - 5e10 newton_cycle_witness_refuted) and the line-search branch of newton_min, "
+    "which has no stagnation test at all (F-C20-NEWTON-MIN-LS-STALL), never return; both are matched by the STATE the run spins in "
+    "(period-2 / fixed point, classified by the counting hook), so a fixed-point spin of newton_root / the plain newton_min branch is a "
+    "VIOLATION. Tie: unconstrained runs with default options on x^2 - a (a ~ 1e10..1e13, 1-D and 2-D, RunRoot / RunCrit / RunMin / the plain "
+    "newton_min branch through an add-only hook) under a counting hook (40000 evaluations, no wall clock); iterates and InSitu.T1 are "
+    "replayed bit-exactly against nstep_loop (CorrNewton.NS); the direction (matrixInverse, MdotV) is logged data, not modelled; the "
+    "constrained step loop is tied by the older regex + constraint-callback cases only. gaussJordan.Run: only the two dimension guards of "
+    "each of the four variants are modelled (a square, default submatrix): exact characterisation, the fast path is as strict as the generic "
+    "one, `<` guards refuted; non-square a, a short Submatrix option and x with fewer COLUMNS than n are not modelled (index panics, not "
+    "exercised); the elimination itself belongs to C05.")
 
 LOOPS = [
     # (site, cap kind, status)
@@ -80,6 +99,10 @@ LOOPS = [
     ("adam.adam main loop", "capped: MaxIterations (default MaxInt: unbounded by default)", "proved: capped_bound"),
     ("newton.newton_root / newton_min main loops", "capped: MaxIterations (default MaxInt: unbounded by default)", "proved: capped_bound"),
     ("newton inner `for { x2 = x1 - t1; ...; t1 *= c }`", "uncapped", "proved in exact arithmetic when the constraints accept a box around x1 (PropsRetry.newton_backtracking_exits; the wrong-vector variant is refuted: newton_wrong_vector_refuted); with constraints rejecting every point but x1 it exits only by floating-point underflow x2 == x1; exercised with constraint callbacks that reject every trial point (constraints-x0-only / -x0-point): returns 'line search failed' through the Vequals exit"),
+    ("newton outer loop on a stalled / cycling state (unconstrained, default MaxIterations)", "capped by MaxInt only",
+     "stall: proved loud (PropsNewton.newton_stall_is_loud, every oracle); late stagnation test refuted (newton_late_stall_test_spins_refuted); "
+     "period-2 cycle between neighbouring floats: NOT caught by the code (F-C20-NEWTON-CYCLE, refuted: newton_period2_cycle_spins_refuted, newton_cycle_witness_refuted); RunMin's line-search "
+     "branch has no stagnation test (F-C20-NEWTON-MIN-LS-STALL); monitored by a counting hook, hang state classified"),
     ("saga.saga* epoch loop", "capped: MaxIterations (default MaxInt: unbounded by default)", "proved: capped_bound (skeleton only; not exercised by the harness)"),
     ("blahut.blahut `for k < steps`", "capped: steps (mandatory argument)", "proved: capped_bound"),
     ("special.SumSeries / SumLogSeries / EvalContinuedFraction", "capped: max_terms", "proved: capped_bound"),
@@ -323,6 +346,30 @@ def term_stage(ctx, binary, fs):
         ctx.log("rprop inner-loop traces: %d replayed, %d mismatching" % (len(inner), len(ibad)))
     ctx.cov.setdefault("extra", {})["rprop_inner"] = {"runs_with_progress_log": n_prog, "traces_replayed": len(inner),
                                                       "dense_trial_gradient_zero": len(prog_known)}
+    # round 7: bit-exact replay of the logged unconstrained newton runs against ModelNewton.nstep_loop (CorrNewton.NS)
+    stall = [(r["case"], r["stall"]) for r in res if r.get("stall")]
+    srun = [r for r in res if r["case"]["routine"].endswith("-stall")]
+    if stall:
+        sp = os.path.join(ctx.dir, "newton_cases_0.v")
+        with open(sp, "w") as f:
+            f.write("From Coq Require Import ZArith List Bool Floats.\nFrom ADV Require Import C20.ModelNewton C20.CorrNewton.\n"
+                    "Import ListNotations.\nDefinition cases : list ADV.C20.CorrNewton.ncase := [\n  ")
+            f.write(";\n  ".join(t for _, t in stall))
+            f.write("\n].\nDefinition M := Eval vm_compute in (ADV.C20.CorrNewton.nmism cases).\nPrint M.\n")
+        sbad = eval_and_report(ctx, [sp], [c for c, _ in stall], len(stall) + 1, "newton stall trajectories")
+        for c in sbad[:4]:
+            ctx.violation({"tcase": c, "obligation": "C20.CorrNewton.ncheck (newton step loop with stagnation test, bit-exact)"}, True,
+                          "%s on x^2 - %s: the logged iterates / steps differ from ModelNewton.nstep_loop (a stalled step was accepted, "
+                          "or an accepted trial point is not x1 - t1)" % (c["routine"], c["p"]))
+        ctx.log("newton stall trajectories: %d replayed, %d mismatching" % (len(stall), len(sbad)))
+    n_lsf = sum(1 for r in srun if r["outcome"] == "error" and "line search failed" in r.get("msg", ""))
+    ctx.oblige(1, 1 if (n_lsf >= 4 or not srun) else 0)
+    if srun and n_lsf < 4:
+        ctx.violation({"obligation": "newton stall stream reaches the stagnation exit", "runs": len(srun), "line_search_failed": n_lsf}, False,
+                      "only %d of %d unconstrained stall runs ended through the stagnation exit `line search failed` (the stream is vacuous)" % (n_lsf, len(srun)))
+    ctx.cov.setdefault("extra", {})["newton_stall"] = {"runs": len(srun), "ended_by_line_search_failed": n_lsf,
+                                                       "trajectories_replayed": len(stall),
+                                                       "spinning": sum(1 for r in srun if r["outcome"] == "deadline")}
     # robustness to timing: an unexplained deadline hit is re-run alone with the long deadline before it counts
     confirmed = []
     for r in viol:
@@ -436,6 +483,52 @@ def qr_stage(ctx, binary):
     for b in bad[:3]:
         ctx.violation({"qrcase": b, "obligation": "C20.Corr.qcheck (bit-exact QRstep / block-loop iteration count)"}, False,
                       "the exact 2x2 QR step model and qrAlgorithm.QRstep / Run disagree on %s" % json.dumps(b)[:200])
+
+
+def gj_stage(ctx, binary, replay_file=None):
+    """round 7: shape guards of gaussJordan.Run on the generic and the DenseFloat64 fast paths (CorrNewton.GJ) + a
+    property-level oracle on the implementation (invalid shape accepted / receiver changed on rejection)."""
+    name = "replay_gj" if replay_file else "gj"
+    for old in glob.glob(os.path.join(ctx.dir, name + "*")):
+        os.remove(old)
+    if replay_file:
+        rc, out = vlib.sh([binary, "--replay", replay_file, "--out", ctx.dir], timeout=600, cwd=vlib.ROOT, env=vlib.go_env())
+    else:
+        rc, out = vlib.sh([binary, "--seed", str(ctx.seed), "--tier", ctx.tier, "--extra", "gj", "--out", ctx.dir],
+                          timeout=600, cwd=vlib.ROOT, env=vlib.go_env())
+    mp = os.path.join(ctx.dir, name + ".meta.json")
+    if rc != 0 or not os.path.exists(mp):
+        ctx.violation({"obligation": "C20 harness gaussJordan guard stream", "log": out[-2000:]}, False,
+                      "harness crashed while running the gaussJordan guard stream")
+        return 1
+    meta = json.load(open(mp))
+    cases = vlib.load_jsonl(os.path.join(ctx.dir, name + ".jsonl"))
+    shards = sorted(glob.glob(os.path.join(ctx.dir, name + "_*.v")), key=lambda p: int(re.findall(r"_(\d+)\.v$", p)[0]))
+    bad = eval_and_report(ctx, shards, cases, meta["per_shard"], "gaussJordan guards")
+    an = json.load(open(os.path.join(ctx.dir, name + ".anomalies.json")))["anomalies"] or []
+    what = {"invalid-shape-accepted": "accepted an invalid shape (returned nil)",
+            "receiver-changed-on-rejection": "changed a, x or b although it rejected the call",
+            "runtime-error-instead-of-guard": "ran into a Go runtime error instead of its guard",
+            "valid-shape-rejected": "rejected a valid call"}
+    for a in sorted(an, key=lambda a: (a["gjcall"]["n"], a["gjcall"]["xr"] + a["gjcall"]["bl"]))[:6]:
+        c = a["gjcall"]
+        ctx.violation({"gjcall": c, "obs": a["obs"], "anomaly": a["type"],
+                       "broken": ["correspondence C20.CorrNewton.ncheck"] if bad else []}, True,
+                      "gaussJordan.Run (%s path, UpperTriangular=%s) on a %dx%d, x with %d rows, b with %d entries %s (outcome kind %d)" % (
+                          "DenseFloat64 fast" if c["fast"] else "generic", c["tri"], c["n"], c["n"], c["xr"], c["bl"],
+                          what.get(a["type"], a["type"]), a["obs"]["kind"]))
+    if bad and not an:
+        b = bad[0]
+        ctx.violation({"gjcall": b["gjcall"], "obs": b["obs"], "obligation": "correspondence C20.CorrNewton.ncheck (gaussJordan guard model)"},
+                      False, "gaussJordan guard model and implementation disagree on %d call(s) (first: %s -> kind %d), but every "
+                      "invalid shape is still rejected loudly" % (len(bad), json.dumps(b["gjcall"]), b["obs"]["kind"]))
+    if not replay_file:
+        ctx.cov["evaluations"] = ctx.cov.get("evaluations", 0) + len(cases)
+        ctx.cov["distinct_nontrivial"] = ctx.cov.get("distinct_nontrivial", 0) + meta.get("distinct_nontrivial", 0)
+        ctx.cov["rule"] = ctx.cov.get("rule", "") + " | " + meta.get("rule", "")
+        ctx.cov.setdefault("input_distribution", {})["gaussJordan_guards"] = meta.get("histogram", {})
+        ctx.log("gaussJordan guards: %d calls, %d mismatching the model, %d anomalies" % (len(cases), len(bad), len(an)))
+    return 1 if (an or bad) else 0
 
 
 def known_recycle(c, fs):
@@ -556,9 +649,10 @@ def run(ctx):
     thms = vlib.theorem_names(os.path.join(vlib.COQ, "C20/Props.v"))
     thms2 = vlib.theorem_names(os.path.join(vlib.COQ, "C20/PropsRetry.v"))
     thms3 = vlib.theorem_names(os.path.join(vlib.COQ, "C20/PropsRecycle.v"))
+    thms4 = vlib.theorem_names(os.path.join(vlib.COQ, "C20/PropsNewton.v"))
     if ok:
         ctx.cov["print_assumptions"] = vlib.print_assumptions("C20", [("C20.Props", thms), ("C20.PropsRetry", thms2),
-                                                                      ("C20.PropsRecycle", thms3)], ctx.dir)
+                                                                      ("C20.PropsRecycle", thms3), ("C20.PropsNewton", thms4)], ctx.dir)
     for f in failures:
         ctx.violation({"obligation": f["target"], "lemma": f["lemma"], "errors": f["errors"]}, False,
                       "proof obligation no longer checks: %s %s" % (f["target"], f["lemma"] or ""))
@@ -571,6 +665,7 @@ def run(ctx):
     guard_stage(ctx, binary, fs, ok)
     term_stage(ctx, binary, fs)
     qr_stage(ctx, binary)
+    gj_stage(ctx, binary)
     recycle_stage(ctx, binary, fs)
 
 
@@ -593,6 +688,12 @@ def replay(ctx, path):
         print("property oracle on the implementation: %s" % (
             "; ".join("%s %s" % (a["site"], a["type"]) for a in an) if an else "holds"))
         return 1 if (unknown or not agree) else 0
+    if "gjcall" in rp:
+        rf = os.path.join(ctx.dir, "replay_in.json")
+        json.dump({"gjcall": rp["gjcall"]}, open(rf, "w"))
+        r = gj_stage(ctx, binary, replay_file=rf)
+        print("gaussJordan.Run %s: %s" % (json.dumps(rp["gjcall"]), "still fails" if r else "holds"))
+        return r
     if "rseq" in rp:
         rf = os.path.join(ctx.dir, "replay_in.json")
         json.dump({"rseq": rp["rseq"]}, open(rf, "w"))
